@@ -226,4 +226,188 @@ struct servent *getservbyname(const char *name, const char *proto)
 }
 #endif
 
+
+/* ======================================================================================
+ * 4. Kernel model for socket.c / str.c readers (C19).  Units that want it define NET_KERNEL.
+ *
+ * The kernel is NOT exercised: every call below is a stub that returns every outcome its
+ * man page allows (success, short counts, -1 with any errno) and keeps ghost accounting.
+ *
+ * Descriptors: a small fixed table  vg_fd_open[0..VG_NFD)  (VG_NFD = 8).  A call that
+ * creates a descriptor (socket, accept, dup) picks ANY slot that is not open
+ * (nondeterministic choice among the unopened ones) or fails; close() releases the slot.
+ * ASSUMES (Linux close(2)): the descriptor is released by close() whatever it returns,
+ * except EBADF; closing a slot that is not open returns -1/EBADF and is counted in
+ * vg_close_bad (a contract can then say "never closes a descriptor it does not own").
+ *
+ * errno: bound to the ghost vg_errno (macro re-binding) so that contracts can name it in
+ * assigns clauses; h_errno likewise.
+ *
+ * Byte streams.  ASSUMED pipe law (not modelled, stated): bytes accepted by write() on one
+ * end are later returned by read() on the peer in order.  Under it, "the receiver gets the
+ * payload" reduces to the sender's obligation tracked here:
+ *      vg_wr_base, vg_wr_len   the payload the unit is sending (set by the unit's contract)
+ *      vg_wr_total             bytes accepted by write() so far
+ *      vg_wr_in_order          every write() so far offered exactly the bytes that follow the
+ *                              last accepted count:  buf == base + total  and  n <= len - total
+ *      vg_wr_calls             number of write() calls; vg_wr_retries number of EAGAIN/EINTR results
+ * ASSUMES: fewer than VG_RETRY_CAP (2^40) EAGAIN/EINTR results of write() per send: the
+ * back-off timer of spif_socket_send adds 10 ms per retry and would otherwise overflow after
+ * about 2.9e9 years of retries.
+ * ====================================================================================== */
+#ifdef NET_KERNEL
+#include <errno.h>
+#include <sys/time.h>
+int vg_errno, vg_h_errno;
+#undef errno
+#define errno vg_errno
+#undef h_errno
+#define h_errno vg_h_errno
+
+#define VG_NFD 8
+_Bool vg_fd_open[VG_NFD];
+unsigned vg_close_bad, vg_close_calls;
+#define VG_FD_VALID(fd) ((fd) >= 0 && (fd) < VG_NFD)
+#define VG_FD_OPEN(fd)  (VG_FD_VALID(fd) && vg_fd_open[(fd)])
+#define VG_KERNEL_ASSIGNS vg_errno, __CPROVER_object_whole(vg_fd_open), vg_close_bad, vg_close_calls
+
+static int vg_any_errno(void) { int e = nondet_int(); __CPROVER_assume(e > 0 && e < 4096); return e; }
+static int vg_new_fd(void)
+{
+    int fd = nondet_int();
+    __CPROVER_assume(VG_FD_VALID(fd) && !vg_fd_open[fd]);
+    vg_fd_open[fd] = 1;
+    return fd;
+}
+int socket(int domain, int type, int protocol)
+{
+    if (nondet_bool()) { vg_errno = vg_any_errno(); return -1; }
+    return vg_new_fd();
+}
+int dup(int oldfd)
+{
+    if (!VG_FD_OPEN(oldfd)) { vg_errno = EBADF; return -1; }
+    if (nondet_bool()) { vg_errno = vg_any_errno(); return -1; }
+    return vg_new_fd();
+}
+int close(int fd)
+{
+    vg_close_calls++;
+    if (!VG_FD_OPEN(fd)) { vg_close_bad++; vg_errno = EBADF; return -1; }
+    vg_fd_open[fd] = 0;
+    if (nondet_bool()) { vg_errno = vg_any_errno(); __CPROVER_assume(vg_errno != EBADF); return -1; }
+    return 0;
+}
+int bind(int fd, const struct sockaddr *addr, socklen_t len)
+{
+    if (!VG_FD_OPEN(fd)) { vg_errno = EBADF; return -1; }
+    if (addr == NULL) { vg_errno = EFAULT; return -1; }
+    __CPROVER_assert(__CPROVER_r_ok(addr, len), "bind: address readable for len bytes");
+    if (nondet_bool()) { vg_errno = vg_any_errno(); return -1; }
+    return 0;
+}
+int listen(int fd, int backlog)
+{
+    if (!VG_FD_OPEN(fd)) { vg_errno = EBADF; return -1; }
+    if (nondet_bool()) { vg_errno = vg_any_errno(); return -1; }
+    return 0;
+}
+int connect(int fd, const struct sockaddr *addr, socklen_t len)
+{
+    if (!VG_FD_OPEN(fd)) { vg_errno = EBADF; return -1; }
+    if (addr == NULL) { vg_errno = EFAULT; return -1; }
+    __CPROVER_assert(__CPROVER_r_ok(addr, len), "connect: address readable for len bytes");
+    if (nondet_bool()) { vg_errno = vg_any_errno(); return -1; }
+    return 0;
+}
+int accept(int fd, struct sockaddr *addr, socklen_t *len)
+{
+    if (!VG_FD_OPEN(fd)) { vg_errno = EBADF; return -1; }
+    if (nondet_bool()) { vg_errno = vg_any_errno(); return -1; }
+    if (addr != NULL) {
+        __CPROVER_assert(len != NULL && __CPROVER_w_ok(addr, *len), "accept: address buffer writable for *len bytes");
+        __CPROVER_havoc_slice(addr, *len);
+        socklen_t n = nondet_uint();
+        *len = n;                      /* the real length of the peer address (may exceed the buffer) */
+    }
+    return vg_new_fd();
+}
+/* fcntl is variadic (see the snprintf note): re-bound to a fixed-arity model; the third argument is evaluated */
+int vg_fcntl(int fd, int cmd, long arg)
+{
+    if (!VG_FD_OPEN(fd)) { vg_errno = EBADF; return -1; }
+    if (nondet_bool()) { vg_errno = vg_any_errno(); return -1; }
+    if (cmd == F_GETFL) { int fl = nondet_int(); __CPROVER_assume(fl >= 0); return fl; }
+    return 0;
+}
+#undef fcntl
+#define fcntl(fd, cmd, ...) vg_fcntl((fd), (cmd), (long) (__VA_ARGS__ + 0))
+int select(int nfds, fd_set *r, fd_set *w, fd_set *e, struct timeval *tv)
+{
+    /* Linux: the timeout is updated to the time not slept; the sets keep only ready descriptors */
+    if (tv != NULL) {
+        long s = nondet_long(), us = nondet_long();
+        __CPROVER_assume(s >= 0 && s <= tv->tv_sec && us >= 0 && us <= ((tv->tv_usec > 999999) ? tv->tv_usec : 999999));
+        tv->tv_sec = s; tv->tv_usec = us;
+    }
+    if (nondet_bool()) { vg_errno = vg_any_errno(); return -1; }
+    if (r != NULL) { fd_set m; *r = m; }
+    if (w != NULL) { fd_set m; *w = m; }
+    if (e != NULL) { fd_set m; *e = m; }
+    int n = nondet_int();
+    __CPROVER_assume(n >= 0 && n <= 3 * (nfds > 0 ? nfds : 0));
+    return n;
+}
+char *strerror(int e) { return (char *) "error"; }
+
+/* ---- byte streams ---------------------------------------------------------------------------- */
+const char *vg_wr_base;
+size_t vg_wr_len, vg_wr_total, vg_wr_calls, vg_wr_retries;
+_Bool vg_wr_in_order;
+#define VG_RETRY_CAP (((size_t) 1) << 40)
+#define VG_WRITE_ASSIGNS vg_wr_total, vg_wr_calls, vg_wr_retries, vg_wr_in_order
+#ifndef NET_OWN_WRITE
+ssize_t write(int fd, const void *buf, size_t n)
+{
+    __CPROVER_assert(n == 0 || __CPROVER_r_ok(buf, n), "write: buffer readable for n bytes");
+    vg_wr_calls++;
+    if (!((const char *) buf == vg_wr_base + vg_wr_total && vg_wr_total <= vg_wr_len && n <= vg_wr_len - vg_wr_total))
+        vg_wr_in_order = 0;
+    if (!VG_FD_OPEN(fd)) { vg_errno = EBADF; return -1; }
+    if (nondet_bool()) {
+        vg_errno = vg_any_errno();
+#ifdef NET_WRITE_NO_EFBIG
+        __CPROVER_assume(vg_errno != EFBIG);
+#endif
+        if (vg_errno == EAGAIN || vg_errno == EINTR) {
+            vg_wr_retries++;
+            __CPROVER_assume(vg_wr_retries < VG_RETRY_CAP);
+        }
+        return -1;
+    }
+    size_t k = nondet_size_t();
+    __CPROVER_assume(k <= n && (k > 0 || n == 0) && k <= (size_t) 0x7fffffff);     /* complete or short */
+#ifdef NET_WRITE_NO_SHORT
+    __CPROVER_assume(k == n);                                                       /* complete only */
+#endif
+    vg_wr_total += k;
+    return (ssize_t) k;
+}
+#endif
+size_t vg_rd_total, vg_rd_calls;
+#define VG_READ_ASSIGNS vg_rd_total, vg_rd_calls
+ssize_t read(int fd, void *buf, size_t n)
+{
+    __CPROVER_assert(n == 0 || __CPROVER_w_ok(buf, n), "read: buffer writable for n bytes");
+    vg_rd_calls++;
+    if (!VG_FD_OPEN(fd)) { vg_errno = EBADF; return -1; }
+    if (nondet_bool()) { vg_errno = vg_any_errno(); return -1; }
+    size_t k = nondet_size_t();
+    __CPROVER_assume(k <= n);                                   /* 0 = end of stream; short or full chunk */
+    if (k > 0) __CPROVER_havoc_slice(buf, k);
+    vg_rd_total += k;
+    return (ssize_t) k;
+}
+#endif /* NET_KERNEL */
+
 #endif /* VERIF_ENV_NET_H */
